@@ -95,9 +95,11 @@ pub enum BPath {
 
 #[derive(Clone, Debug)]
 pub struct Borrow {
+    /// the value slot that owns the memory (an entry of an entry is still owned by the root handle)
     pub container: usize,
     pub epoch: u64,
-    pub path: BPath,
+    /// from the root handle down to the entry
+    pub path: Vec<BPath>,
 }
 
 #[derive(Clone, Copy, Debug, PartialEq, Eq)]
@@ -541,11 +543,15 @@ impl Sim {
     }
 
     fn borrow_target<'a>(&'a self, bw: &Borrow) -> Option<&'a Value> {
-        match (self.vals[bw.container].as_ref()?, &bw.path) {
-            (Value::List(l), BPath::Idx(i)) => l.get(*i),
-            (Value::Dict(d), BPath::Key(k)) => d.get(k),
-            _ => None,
+        let mut v = self.vals[bw.container].as_ref()?;
+        for seg in &bw.path {
+            v = match (v, seg) {
+                (Value::List(l), BPath::Idx(i)) => l.get(*i)?,
+                (Value::Dict(d), BPath::Key(k)) => d.get(k)?,
+                _ => return None,
+            };
         }
+        Some(v)
     }
 
     /// Resolves handle argument k. `None`: the op cannot run (slot empty / borrow no longer valid).
@@ -1292,9 +1298,11 @@ impl Sim {
                 let got_true = got.as_ref().map(|g| *g == ResultType::TRUE);
                 self.finish_res(f, t, exp, got, null_rel);
                 if exp == 1 {
-                    let container = match c {
-                        HArg::Slot(i) => Some(i),
-                        _ => None, // an entry of an entry: not tracked as a borrow
+                    // (root slot, path to the container argument)
+                    let container: Option<(usize, Vec<BPath>)> = match c {
+                        HArg::Slot(i) => Some((i, Vec::new())),
+                        HArg::Borrowed(b0) => self.borrows[b0].as_ref().map(|bw| (bw.container, bw.path.clone())),
+                        HArg::Null => None,
                     };
                     if exec && got_true == Some(true) {
                         if out.is_null() {
@@ -1308,10 +1316,11 @@ impl Sim {
                             }
                         }
                     }
-                    if let Some(ci) = container {
+                    if let Some((ci, mut full)) = container {
                         let b = bs as usize;
                         if !exec || (got_true == Some(true) && !out.is_null()) {
-                            self.borrows[b] = Some(Borrow { container: ci, epoch: self.epochs[ci], path: path.unwrap() });
+                            full.push(path.unwrap());
+                            self.borrows[b] = Some(Borrow { container: ci, epoch: self.epochs[ci], path: full });
                             self.rborrows[b] = out;
                         }
                     }
